@@ -288,6 +288,130 @@ def size(p):
     return 1 + sum(size(c) for c in children(p))
 
 
+
+
+# ------------------------------------------------------------------------------------------------ tag numbering of peg/compile
+def canon_tags(g):
+    """The grammar with tags renumbered the way peg/compile numbers them (emit_tag: 1, 2, ... in order of first emission while
+    compiling), and whether the walk met a recursive rule.  Mirrors the order inside each spec_* function of peg.c."""
+    order = {}
+    state = {"recursive": False}
+    active, done = [], set()
+
+    def tag(t):
+        if t and t not in order:
+            order[t] = len(order) + 1
+
+    def lookup(scopes, name):
+        for i, sc in enumerate(scopes):
+            for n, p in sc:
+                if n == name:
+                    return scopes[i:], p, (id(sc), name)
+        for n, p in DEFAULT_GRAMMAR:
+            if n == name:
+                return scopes, p, (tuple(id(x) for x in scopes), name)
+        return None
+
+    def walk(p, scopes):
+        k = p[0]
+        if k == 'ref':
+            r = lookup(scopes, p[1])
+            if r is None:
+                return
+            sc, q, key = r
+            if key in active:
+                state["recursive"] = True
+                return
+            if key in done:
+                return
+            active.append(key)
+            walk(q, sc)
+            active.pop()
+            done.add(key)
+        elif k == 'grammar':
+            sc = [p[1]] + scopes
+            key = (id(p[1]), "main")
+            if key in active:
+                state["recursive"] = True
+                return
+            active.append(key)
+            walk(dict(p[1])["main"], sc)
+            active.pop()
+            done.add(key)
+        elif k in ('capture', 'accumulate', 'group', 'unref'):
+            tag(p[1]); walk(p[2], scopes)
+        elif k == 'number':
+            tag(p[2]); walk(p[3], scopes)
+        elif k == 'nth':
+            walk(p[3], scopes); tag(p[2])
+        elif k in ('replace', 'cmt'):
+            walk(p[3], scopes); tag(p[1])
+        elif k == 'backref':
+            tag(p[1]); tag(p[2])
+        elif k in ('position', 'line', 'column', 'backmatch'):
+            tag(p[1])
+        elif k == 'argument':
+            tag(p[2])
+        elif k == 'constant':
+            tag(p[1])
+        elif k == 'readint':
+            tag(p[4])
+        else:
+            for c in children(p):
+                walk(c, scopes)
+    walk(g, [])
+    nxt = [len(order)]
+
+    def T(t):
+        if t == 0:
+            return 0
+        if t not in order:          # only in unreachable rules: any fresh number
+            nxt[0] += 1
+            order[t] = nxt[0]
+        return order[t]
+
+    def ren(p):
+        k = p[0]
+        if k in ('capture', 'accumulate', 'group', 'unref'):
+            return (k, T(p[1]), ren(p[2]))
+        if k == 'number':
+            return (k, p[1], T(p[2]), ren(p[3]))
+        if k == 'nth':
+            return (k, p[1], T(p[2]), ren(p[3]))
+        if k in ('replace', 'cmt'):
+            return (k, T(p[1]), p[2], ren(p[3]))
+        if k == 'backref':
+            return (k, T(p[1]), T(p[2]))
+        if k in ('position', 'line', 'column', 'backmatch'):
+            return (k, T(p[1]))
+        if k == 'argument':
+            return (k, p[1], T(p[2]))
+        if k == 'constant':
+            return (k, T(p[1]), p[2])
+        if k == 'readint':
+            return (k, p[1], p[2], p[3], T(p[4]))
+        if k in ('choice', 'seq'):
+            return (k, [ren(x) for x in p[1]])
+        if k == 'grammar':
+            return (k, [(n, ren(x)) for n, x in p[1]])
+        if k in ('if', 'ifnot', 'lenprefix', 'sub', 'split', 'til'):
+            return (k, ren(p[1]), ren(p[2]))
+        if k in ('not', 'any', 'some', 'opt', 'to', 'thru', 'drop', 'onlytags', 'error'):
+            return (k, ren(p[1]))
+        if k in ('look', 'atleast', 'atmost', 'repeat'):
+            return (k, p[1], ren(p[2]))
+        if k == 'between':
+            return (k, p[1], p[2], ren(p[3]))
+        return p
+    return ren(g), state["recursive"]
+
+
+def has_struct(p):
+    if p[0] in ('replace', 'cmt', 'constant') and isinstance(p[2], tuple) and p[2] and p[2][0] == 'struct':
+        return True
+    return any(has_struct(c) for c in children(p))
+
+
 # ------------------------------------------------------------------------------------------------ generator
 class Gen:
     def __init__(self, rng, max_depth=4, features=None):
